@@ -23,7 +23,7 @@ func init() {
 		ID:        "C03",
 		Run:       checkC03,
 		Technique: "static analysis: enumeration of every potentially panicking construct (index/slice not proven by the Go compiler's bounds-check elimination, integer division, unchecked type assertion, explicit panic, rand.Intn) in repository code reachable from peer-facing entry points (VTA call graph); each discharged by a linear-inequality prover over edge-dominating guards, or by a reviewed justification-table entry",
-		Explanation: "Scope = repository functions reachable (VTA call graph) from the peer-facing decoders and handlers (protocol readers, fragmentation, server/client UDP paths, request hooks and the QUIC/TLS/HTTP sniffer, obfuscators, hole-punch packet codec, STUN parsing, speedtest, SOCKS5/HTTP outbound reply parsing). In that scope every index/slice expression that the Go compiler's prove pass could not discharge (go build -gcflags=-d=ssa/check_bce/debug=1, rebuilt from the working tree), every integer division/modulo with a non-constant divisor, every type assertion without comma-ok, every explicit panic, every make with a non-constant length and every rand.Intn-style call is an obligation. R1 an obligation is discharged when hv's prover derives the required inequality (0 <= i < len, lo <= hi <= cap, divisor >= 1, n >= 1) as a non-negative combination of the guards on CFG edges that dominate the site plus definitional facts (type ranges, len/cap, masks, modulo, copy/Read counts, φ case split); R2 otherwise it must match an entry of the reviewed justification table (hv/tables/c03.json: function + structural site key + reason, e.g. a caller contract on a buffer the function itself sized); anything else is reported as a violation naming the site and the missing bound.",
+		Explanation: "Scope = repository functions reachable (VTA call graph) from the peer-facing decoders and handlers (protocol readers, fragmentation, server/client UDP paths, request hooks and the QUIC/TLS/HTTP sniffer, obfuscators, hole-punch packet codec, STUN parsing, speedtest, SOCKS5/HTTP outbound reply parsing). In that scope every index/slice expression that the Go compiler's prove pass could not discharge (go build -gcflags=-d=ssa/check_bce/debug=1, rebuilt from the working tree), every integer division/modulo with a non-constant divisor, every type assertion without comma-ok, every explicit panic, every make with a non-constant length and every rand.Intn-style call is an obligation. R1 an obligation is discharged when hv's prover derives the required inequality (0 <= i < len, lo <= hi <= cap, divisor >= 1, n >= 1) as a non-negative combination of the guards on CFG edges that dominate the site plus definitional facts (type ranges, len/cap, append/Clone lengths, masks, modulo, copy/Read counts, φ and min/max case split, constant lower bounds of repository callees, constructor-established length relations between sibling fields, and the reviewed axioms of hv/tables/c03.json about library / data invariants); R3 when the goal only follows under a precondition over the function's own parameters, that precondition is proved at every call site of the function (only for functions all of whose callers are inside the repository; lifted at most twice); R2 otherwise the site must be covered by a reviewed justification (hv/tables/c03.json: a whole writer-side / library-contract function, or one site by its structural key, each with a reason); anything else is reported as a violation naming the site and the missing bound.",
 		NotDecided: []string{
 			"panics inside third-party decoders (utls, pion/stun, txthinking/socks5, quic-go) and the standard library",
 			"run-time panics that are not site-local: nil dereference, nil-map write, closed-channel operations, out-of-memory, stack exhaustion, concurrent map access",
